@@ -55,7 +55,18 @@ func H09_rune() {
 	t.w, t.h = 2, 1
 	x := vsymChoice("col", 2)
 	r := vsymRune("r")
-	if vsymChoice("via", 2) == 0 {
+	// optionally one combining mark (the property limits combining lists to zero-width
+	// non-control marks: any of U+0300..U+036F)
+	var comb []rune
+	hasComb := vsymChoice("comb", 2) == 1
+	if hasComb {
+		c := vsymRune("c")
+		vsymAssume(vsymAnd(c >= 0x300, c <= 0x36f))
+		comb = []rune{c}
+	}
+	if hasComb {
+		t.cells.SetContent(x, 0, r, comb, StyleDefault)
+	} else if vsymChoice("via", 2) == 0 {
 		t.cells.SetContent(x, 0, r, nil, StyleDefault)
 	} else {
 		t.cells.Fill(r, StyleDefault)
@@ -90,7 +101,10 @@ func H09_rune() {
 		}
 	}
 	if vsymOr(h09Control(r), h09FormatA(r)) {
-		vsymAssert(len(out) == 1 && out[0] == ' ', "a control, invalid or zero-width primary rune is shown as a blank")
+		vsymAssert(len(out) >= 1 && out[0] == ' ', "a control, invalid or zero-width primary rune is shown as a blank")
+		if !hasComb {
+			vsymAssert(len(out) == 1, "a blanked cell is exactly one blank")
+		}
 	}
 	if x == 1 && width == 2 {
 		vsymAssert(false, "a cell in the last column never claims two columns")
